@@ -214,10 +214,21 @@ func traceToInput(w *engine.World, evs []engine.Event, tok int) (int, bool) {
 		found := false
 		for _, ev := range evs {
 			if ev.Func == org.Func && ev.Exec == org.Exec {
+				di := 0
 				if len(ev.Args) != 1 {
-					return 0, false
+					// multi-input converter: follow its data argument (the
+					// one that is not the named option)
+					di = -1
+					for i, a := range ev.Args {
+						if a.L.Name != "q" {
+							di = i
+						}
+					}
+					if di < 0 {
+						return 0, false
+					}
 				}
-				tok = ev.Args[0].Tok
+				tok = ev.Args[di].Tok
 				found = true
 				break
 			}
@@ -270,7 +281,7 @@ func evalC07(c *engine.Case) engine.Verdict {
 			break
 		}
 		switch x.Shape {
-		case 3:
+		case 3, 5, 6:
 			for _, ev := range o.Events {
 				if ev.Func != engine.TargetID {
 					continue
@@ -286,6 +297,16 @@ func evalC07(c *engine.Case) engine.Verdict {
 					} else if src != want {
 						org, _ := ws[oi].Origin(src)
 						v.Failf("parameter %s was converted from #%d (supplied as %s); the supplied value with the parameter's name is #%d", a.L, src, org.L, want)
+						// two open findings, identified by the SHAPE of the case
+						// (known-findings.json): only this kind of failure -- the
+						// wrong one of the supplied same-typed values was converted
+						// -- is covered, anything else stays a violation
+						switch x.Shape {
+						case 5:
+							v.Known = "KF-C07-1"
+						case 6:
+							v.Known = "KF-C07-2"
+						}
 					}
 				}
 			}
@@ -388,9 +409,74 @@ func genC07Multi(g engine.G) *engine.Case {
 	return c
 }
 
+// genC07Shared: shape 5 -- TWO named parameters of the target type, both to be
+// made by the same multi-input converter (named option q + type-only source).
+// Each parameter must be converted from the supplied value of its own name.
+func genC07Shared(g engine.G) *engine.Case {
+	names := rapidPerm(g, []string{"a", "b", "cd", "ef"})
+	perm := rapidPerm(g, []int{0, 1, 2, 3, 4, 5})
+	t0, t1, tq := perm[0], perm[1], perm[2]
+	sc := &engine.Scenario{}
+	x := C07Case{Shape: 5, FirstConv: 1, ParamInput: map[string]int{}}
+	np := g.Int(2, 3)
+	for i := 0; i < np; i++ {
+		sc.Inputs = append(sc.Inputs, engine.Input{L: engine.Label{Name: names[i], Type: t0, Dyn: t0}, Tok: i + 1})
+		x.ParamInput[names[i]] = i + 1
+		sc.Target.In = append(sc.Target.In, engine.Label{Name: names[i], Type: t1, Dyn: t1})
+	}
+	x.NameInput = 1
+	sc.Inputs = append(sc.Inputs, engine.Input{L: engine.Label{Name: "q", Type: tq, Dyn: tq}, Tok: 9})
+	sc.Inputs = rapidPerm(g, sc.Inputs)
+	in := []engine.Label{{Name: "q", Type: tq, Dyn: tq}, {Type: t0, Dyn: t0}}
+	if g.Bool() {
+		in[0], in[1] = in[1], in[0]
+	}
+	sc.Convs = []engine.FuncSpec{{ID: 1, In: in, InForm: engine.Pick(g, []string{engine.FormStruct, engine.FormPtr}), Out: []engine.Label{{Type: t1, Dyn: t1}}, OutForm: engine.GenForm(g)}}
+	sc.Target.ID, sc.Target.InForm, sc.Target.OutForm = engine.TargetID, engine.Pick(g, []string{engine.FormStruct, engine.FormPtr}), engine.FormPos
+	sc.Target.In = rapidPerm(g, sc.Target.In)
+	c := &engine.Case{Sc: sc, Reps: 4}
+	c.SetX(&x)
+	return c
+}
+
+// genC07Nested: shape 6 -- a chain source -> mid -> target type whose SECOND
+// converter takes the mid value by name next to a named option q. The first
+// converter's type-only input must still be fed by the supplied value named
+// like the parameter.
+func genC07Nested(g engine.G) *engine.Case {
+	names := rapidPerm(g, []string{"a", "b", "cd", "ef"})
+	n := names[0]
+	perm := rapidPerm(g, []int{0, 1, 2, 3, 4, 5})
+	t0, tm, t1, tq := perm[0], perm[1], perm[2], perm[3]
+	sc := &engine.Scenario{}
+	x := C07Case{Shape: 6, FirstConv: 1, NameInput: 1, ParamInput: map[string]int{n: 1}}
+	sc.Inputs = append(sc.Inputs, engine.Input{L: engine.Label{Name: n, Type: t0, Dyn: t0}, Tok: 1})
+	for i, o := range names[1:g.Int(2, 3)] {
+		sc.Inputs = append(sc.Inputs, engine.Input{L: engine.Label{Name: o, Type: t0, Dyn: t0}, Tok: i + 2})
+	}
+	sc.Inputs = append(sc.Inputs, engine.Input{L: engine.Label{Name: "q", Type: tq, Dyn: tq}, Tok: 9})
+	sc.Inputs = rapidPerm(g, sc.Inputs)
+	conv1 := engine.FuncSpec{ID: 1, In: []engine.Label{{Type: t0, Dyn: t0}}, InForm: engine.GenForm(g), Out: []engine.Label{{Type: tm, Dyn: tm}}, OutForm: engine.GenForm(g)}
+	in2 := []engine.Label{{Name: "q", Type: tq, Dyn: tq}, {Name: "x", Type: tm, Dyn: tm}}
+	if g.Bool() {
+		in2[0], in2[1] = in2[1], in2[0]
+	}
+	conv2 := engine.FuncSpec{ID: 2, In: in2, InForm: engine.Pick(g, []string{engine.FormStruct, engine.FormPtr}), Out: []engine.Label{{Type: t1, Dyn: t1}}, OutForm: engine.GenForm(g)}
+	sc.Convs = rapidPerm(g, []engine.FuncSpec{conv1, conv2})
+	sc.Target = engine.FuncSpec{ID: engine.TargetID, In: []engine.Label{{Name: n, Type: t1, Dyn: t1}}, InForm: engine.Pick(g, []string{engine.FormStruct, engine.FormPtr}), OutForm: engine.FormPos}
+	c := &engine.Case{Sc: sc, Reps: 6}
+	c.SetX(&x)
+	return c
+}
+
 func genC07(g engine.G) *engine.Case {
-	if g.Pct(15) {
+	switch k := g.Int(0, 99); {
+	case k < 15:
 		return genC07Multi(g)
+	case k < 20:
+		return genC07Shared(g)
+	case k < 25:
+		return genC07Nested(g)
 	}
 	names := []string{"a", "b", "cd", "ef"}
 	n := engine.Pick(g, names)
